@@ -10,13 +10,14 @@ import (
 )
 
 func lazyPrograms() (ids []string, progs [][]node) {
-	routes := []string{"direct", "alias", "param", "computed", "apply", "applylist", "map", "rec", "after-return", "lazy-error-unforced", "strict-error"}
+	routes := []string{"direct", "alias", "param", "computed", "apply", "applylist", "map", "rec", "after-return", "lazy-error-unforced", "strict-error",
+		"nested-caller", "nested-caller-returned", "apply-data", "map-data"}
 	patterns := []string{"none", "once", "twice", "substitute", "reverse"}
 	for n := 1; n <= 3; n++ {
 		for mask := 0; mask < 1<<n; mask++ {
 			for variadic := 0; variadic < 2; variadic++ {
 				for _, route := range routes {
-					if route == "map" && (n != 1 || variadic == 1) {
+					if (route == "map" || route == "map-data") && (n != 1 || variadic == 1) {
 						continue
 					}
 					for _, pat := range patterns {
@@ -119,6 +120,41 @@ func lazyProgram(n, mask int, variadic bool, route, pat string) []node {
 		fbody := nCond([]clause{{nApp("<=", nSym("cnt"), nInt(0)), nBegin(body...)}}, nCall(nSym("F"), rargs...))
 		first := append([]node{nInt(1)}, args...)
 		return []node{nDefn("F", ps2, rest, fbody), nCall(nSym("F"), first...)}
+	case "nested-caller", "nested-caller-returned":
+		// the call site is inside a nested function and its lazy arguments mention a variable
+		// of the ENCLOSING function (the caller's lexical environment, through its parent chain)
+		var largs []node
+		for i := 0; i < n; i++ {
+			largs = append(largs, nApp("tr", nInt(i+1), nApp("+", nSym("encl"), nInt(i))))
+		}
+		if variadic {
+			largs = append(largs, nApp("tr", nInt(40), nInt(7)), nApp("tr", nInt(41), nInt(8)))
+		}
+		inner := nFn(nil, "", nCall(nSym("F"), largs...))
+		if route == "nested-caller" {
+			return []node{defF, nDef("encl", nInt(500)), nDefn("outer", strict("encl"), "", nCall(inner)), nCall(nSym("outer"), nInt(20))}
+		}
+		return []node{defF, nDef("encl", nInt(500)), nDefn("outer", strict("encl"), "", inner), nDef("g", nCall(nSym("outer"), nInt(20))), nApp("tr", nInt(70), nInt(0)), nCall(nSym("g"))}
+	case "apply-data", "map-data":
+		// values that are not self-evaluating reach a lazy parameter through apply / map: forcing
+		// returns the value, it is not evaluated again
+		data := func(i int) node {
+			if i%2 == 0 {
+				return nQuote(node{"list", []any{node{"sym", "tr"}, node{"int", 80 + i}, node{"int", 1}}})
+			}
+			return nQuote(nSym("encl"))
+		}
+		if route == "map-data" {
+			return []node{defF, nDef("encl", nInt(500)), nApp("map", nSym("F"), nArr(data(0), data(1)))}
+		}
+		var dargs []node
+		for i := 0; i < n; i++ {
+			dargs = append(dargs, data(i))
+		}
+		if variadic {
+			dargs = append(dargs, nInt(7), nInt(8))
+		}
+		return []node{defF, nDef("encl", nInt(500)), nApp("apply", nSym("F"), nArr(dargs...))}
 	case "after-return":
 		// forcing after the caller has returned, through a closure
 		// the callee and the closure have their own `loc`: a lazy argument must see the caller's
